@@ -57,6 +57,9 @@ def run(ctx):
                    "has priority, decrement saturates at 0, expiry flagged only while enabled; reset delay needs the effective enable", min_sites=13)
     ctx.rule("Q5", "per-frame FSM registers (bit counters, lengths) are re-initialised in the idle state, in a state every frame "
                    "crosses first, or on every exit of idle that leads to the counting state", min_sites=10)
+    ctx.rule("Q6", "I2C pads: SCL and SDA are open drain (o = 0, oe = ~level); SDA follows the machine only in cycles in which the "
+                   "sampled SCL has reached the level the machine commands (a slave stretching the clock holds SCL low: SDA must not "
+                   "move then, or START / STOP conditions vanish from the wire); otherwise SDA keeps its previous drive", min_sites=6)
     ctx.rule("PRIO", "no dead driver", min_sites=10)
 
     # ================================================================ Q1
@@ -331,3 +334,28 @@ def run(ctx):
     cr = [a for a in wd.find(domain="comb") if a.t == "crg_rst"]
     ok = len(cr) == 1 and cr[0].v == "1" and q.EQ(cr[0], B.A("self.reset_timer.done"))
     ctx.ob("Q4", WDT, "Watchdog", "SoC reset only from the reset-delay timer", ok, "" if ok else f"{[(a.v, a.gtext()) for a in cr]}")
+
+
+    # ================================================================ Q6 I2C pad wrapper
+    iw = fx_of(ctx, I2C, "I2CMaster")
+    for pad in ("scl", "sda"):
+        o = iw.find(domain="comb", target=f"self.{pad}_t.o")
+        ok = len(o) == 1 and o[0].v == "0" and not o[0].guards
+        ctx.ob("Q6", I2C, "I2CMaster", f"{pad}: output value 0 (open drain)", ok, "" if ok else f"{[(a.v, a.gtext()) for a in o]}")
+    oe = iw.find(domain="comb", target="self.scl_t.oe")
+    ok = len(oe) == 1 and not oe[0].guards and B.equivalent(B.from_expr(oe[0].value), B.Not(B.A("self.i2c.scl_o")))
+    ctx.ob("Q6", I2C, "I2CMaster", "scl driven low exactly when the machine commands low", ok, "" if ok else f"{[(a.v, a.gtext()) for a in oe]}")
+    for reg, src in (("self.scl_i_n", "self.scl_t.i"), ("self.sda_oe_n", "self.sda_t.oe")):
+        r = iw.find(domain="sync", target=reg)
+        ok = len(r) == 1 and r[0].v == src and not r[0].guards
+        ctx.ob("Q6", I2C, "I2CMaster", f"{reg} = previous {src}", ok, "" if ok else f"{[(a.v, a.gtext()) for a in r]}")
+    sd = iw.find(domain="comb", target="self.sda_t.oe")
+    upd = [a for a in sd if B.equivalent(B.from_expr(a.value), B.Not(B.A("self.i2c.sda_o")))]
+    hold = [a for a in sd if a.v == "self.sda_oe_n"]
+    ok = len(sd) == 2 and len(upd) == 1 and len(hold) == 1
+    if ok:
+        Gu = q.Inliner(iw, upd[0]).gformula(upd[0])
+        ok = B.equivalent(Gu, B.A("self.scl_i_n == self.i2c.scl_o")) and B.equivalent(q.Inliner(iw, hold[0]).inline(hold[0].eff()), B.Not(Gu))
+    ctx.ob("Q6", I2C, "I2CMaster", "sda follows the machine only when sampled SCL == commanded SCL, else holds", ok,
+           "" if ok else f"{[(a.v, B.show(a.eff())) for a in sd]}: SDA can move while a slave still holds SCL at the other level (clock "
+                         f"stretching) -- the START/STOP condition is not seen on the bus", upd[0].line if upd else 0)
